@@ -191,8 +191,12 @@ func (lm *levelManager) flush(immutable *memTable) (err error) {
 
 	iter.Rewind()
 	if !iter.Valid() {
-		if err := lm.lsm.wal.RemoveSegment(uint32(fid)); err != nil && !errors.Is(err, os.ErrNotExist) {
-			return err
+		// The shared WAL segment may still hold raft records of a group that has not
+		// truncated past it, even though this memtable received no writes.
+		if lm.canRemoveWalSegment(uint32(fid)) {
+			if err := lm.lsm.wal.RemoveSegment(uint32(fid)); err != nil && !errors.Is(err, os.ErrNotExist) {
+				return err
+			}
 		}
 		return nil
 	}
